@@ -138,7 +138,16 @@ class WorldG : public World
         plan["index"] = index;
         json geo;
         bool use_gen = rg.coin(spec.property == "C19" ? 0.5 : 0.65);
-        if (use_gen)
+        // one plan in six: an object tree converted by the construction API
+        bool use_api = rg.coin(1.0 / 6);
+        if (use_api)
+        {
+            geo["kind"] = "api";
+            geo["seed"] = (std::uint64_t)rg.next();
+            geo["half_width"] = rg.coin(0.5) ? 10.0 : rg.log_uniform(1.0, 200.0);
+            geo["max_depth"] = (int)rg.below(3);
+        }
+        else if (use_gen)
         {
             geo["kind"] = "gen";
             geo["seed"] = (std::uint64_t)rg.next();
